@@ -42,12 +42,14 @@ class Lin1:
     def __init__(self, ws, m):
         self.ws, self.m = ws, m
 
-    def __call__(self, n, c, t):
+    def __call__(self, nbhd_arg, cell_arg, step_arg):
+        n, c, t = nbhd_arg, cell_arg, step_arg   # deliberately not named (n, c, t): the rule must be called positionally
         return sum(w * x for w, x in zip(self.ws, _vals1(n))) % self.m
 
 
 class LinCT1(Lin1):
-    def __call__(self, n, c, t):
+    def __call__(self, nbhd_arg, cell_arg, step_arg):
+        n, c, t = nbhd_arg, cell_arg, step_arg   # deliberately not named (n, c, t): the rule must be called positionally
         return (sum(w * x for w, x in zip(self.ws, _vals1(n))) + 3 * int(c) + 5 * int(t)) % self.m
 
 
@@ -55,12 +57,14 @@ class Lin2:
     def __init__(self, ws, m):
         self.ws, self.m = ws, m
 
-    def __call__(self, n, c, t):
+    def __call__(self, nbhd_arg, cell_arg, step_arg):
+        n, c, t = nbhd_arg, cell_arg, step_arg   # deliberately not named (n, c, t): the rule must be called positionally
         return sum(w * x for w, x in zip(self.ws, unmasked2(n))) % self.m
 
 
 class LinCT2(Lin2):
-    def __call__(self, n, c, t):
+    def __call__(self, nbhd_arg, cell_arg, step_arg):
+        n, c, t = nbhd_arg, cell_arg, step_arg   # deliberately not named (n, c, t): the rule must be called positionally
         return (sum(w * x for w, x in zip(self.ws, unmasked2(n))) + 3 * int(c[0]) + 7 * int(c[1]) + 5 * int(t)) % self.m
 
 
@@ -69,7 +73,8 @@ class Aff1(Lin1):
     def __init__(self, ws, b, m):
         self.ws, self.b, self.m = ws, b, m
 
-    def __call__(self, n, c, t):
+    def __call__(self, nbhd_arg, cell_arg, step_arg):
+        n, c, t = nbhd_arg, cell_arg, step_arg   # deliberately not named (n, c, t): the rule must be called positionally
         return (sum(w * x for w, x in zip(self.ws, _vals1(n))) + self.b) % self.m
 
 
@@ -77,7 +82,8 @@ class Aff2(Lin2):
     def __init__(self, ws, b, m):
         self.ws, self.b, self.m = ws, b, m
 
-    def __call__(self, n, c, t):
+    def __call__(self, nbhd_arg, cell_arg, step_arg):
+        n, c, t = nbhd_arg, cell_arg, step_arg   # deliberately not named (n, c, t): the rule must be called positionally
         return (sum(w * x for w, x in zip(self.ws, unmasked2(n))) + self.b) % self.m
 
 
@@ -86,7 +92,8 @@ class Script:
     def __init__(self, vs):
         self.vs, self.i = vs, 0
 
-    def __call__(self, n, c, t):
+    def __call__(self, nbhd_arg, cell_arg, step_arg):
+        n, c, t = nbhd_arg, cell_arg, step_arg   # deliberately not named (n, c, t): the rule must be called positionally
         v = self.vs[self.i] if self.i < len(self.vs) else 0
         self.i += 1
         return v
@@ -97,7 +104,8 @@ class Logged1:
     def __init__(self, f):
         self.f, self.log = f, []
 
-    def __call__(self, n, c, t):
+    def __call__(self, nbhd_arg, cell_arg, step_arg):
+        n, c, t = nbhd_arg, cell_arg, step_arg   # deliberately not named (n, c, t): the rule must be called positionally
         self.log.append((_vals1(n), int(c), int(t)))
         return self.f(n, c, t)
 
@@ -107,7 +115,8 @@ class Logged2:
     def __init__(self, f):
         self.f, self.log = f, []
 
-    def __call__(self, n, c, t):
+    def __call__(self, nbhd_arg, cell_arg, step_arg):
+        n, c, t = nbhd_arg, cell_arg, step_arg   # deliberately not named (n, c, t): the rule must be called positionally
         self.log.append((nbhd2_obs(n), (int(c[0]), int(c[1])), int(t)))
         return self.f(n, c, t)
 
@@ -138,7 +147,8 @@ class PredLt:
     def __init__(self, k):
         self.k, self.log = k, []
 
-    def __call__(self, ca, t):
+    def __call__(self, history_arg, count_arg):
+        ca, t = history_arg, count_arg   # deliberately not named (ca, t): the predicate must be called positionally
         self.log.append((np.asarray(ca).tolist(), int(t)))
         return t < self.k
 
@@ -147,7 +157,8 @@ class PredScript:
     def __init__(self, script):
         self.script, self.i, self.log = script, 0, []
 
-    def __call__(self, ca, t):
+    def __call__(self, history_arg, count_arg):
+        ca, t = history_arg, count_arg   # deliberately not named (ca, t): the predicate must be called positionally
         self.log.append((np.asarray(ca).tolist(), int(t)))
         b = self.script[self.i] if self.i < len(self.script) else False
         self.i += 1
@@ -159,7 +170,8 @@ class PredLogged:
     def __init__(self, f):
         self.f, self.log = f, []
 
-    def __call__(self, ca, t):
+    def __call__(self, history_arg, count_arg):
+        ca, t = history_arg, count_arg   # deliberately not named (ca, t): the predicate must be called positionally
         self.log.append((np.asarray(ca).tolist(), int(t)))
         return self.f(ca, t)
 
@@ -173,7 +185,8 @@ class Scribble:
     def __init__(self, f, fill=77):
         self.f, self.fill = f, fill
 
-    def __call__(self, n, c, t):
+    def __call__(self, nbhd_arg, cell_arg, step_arg):
+        n, c, t = nbhd_arg, cell_arg, step_arg   # deliberately not named (n, c, t): the rule must be called positionally
         v = self.f(n, c, t)
         try:
             target = n.data if isinstance(n, np.ma.MaskedArray) else n
